@@ -58,6 +58,10 @@ def grad(val, tens, core_indices = None):
     Returns:
         list[torch.tensor]: the list of cores representing the derivative of the expression w.r.t the tensor.
     """
+    # backward() accumulates into an existing .grad: clear the cores first so that this call returns the derivative of `val`
+    # only and so that the tensors returned by an earlier call are not updated in place
+    for c in tens.cores:
+        c.grad = None
     val.retain_grad()
     val.backward()
     if core_indices == None:
@@ -81,6 +85,10 @@ def grad_list(val, tensors, all_in_one = True):
     Returns:
         list[list[torchtt.TT]]: the resulting derivatives.
     """
+    # see grad(): do not accumulate into the gradients of an earlier call
+    for t in tensors:
+        for c in t.cores:
+            c.grad = None
     val.backward()
     cores_list = []
     if all_in_one:
